@@ -28,7 +28,10 @@ let cmd_span c =
   let keys = next_list c next_z in
   let ep = next_list c (fun c -> let a = next_onat c in let b = next_onat c in (a, b)) in
   let pes = next_list c (fun c -> next_list c next_nat) in
-  let itrees = [ next_list c next_onat; next_list c next_onat ] in   (* shortest_edges_only = False, True *)
+  (* shortest_edges_only = False, then True (sequential lets: OCaml evaluates list elements right to left) *)
+  let itree0 = next_list c next_onat in
+  let itree1 = next_list c next_onat in
+  let itrees = [ itree0; itree1 ] in
   let nf = List.length pes in
   (* the model's own tables, computed once *)
   let mtab = (match find_all_plaquettes l with
